@@ -296,6 +296,16 @@ def run(ctx):
                "to the end of that statement): the lock is not re-entrant, so the thread blocks forever holding the guard, and every other flow that needs this shared state blocks behind it")
     ctx.ob("K9", "workspace", "scan", "-", True, f"{n_locks} blocking lock acquisitions scanned for re-acquisition under a live guard", nontrivial=False, ordinal=False)
 
+    # ---------------- K10 the task that serves several flows polls them fairly ---------------------------------
+    from .common import biased_selects
+    rows, n_sel = biased_selects(prog)
+    ctx.floor("K10", "select! loops with two or more branches", 3, n_sel)
+    for (b, t, k) in rows:
+        ctx.ob("K10", b.defp, "shared-loop-select-is-fair", loc(t["sp"]), False,
+               f"a `biased;` select over {k} branches in a loop: a later branch is polled only when every earlier one is idle, so sustained work on an early branch (e.g. replies "
+               "queued for some sessions) keeps the loop from reading what the other flows send for as long as it lasts")
+    ctx.ob("K10", "workspace", "select-scan", "-", True, f"{n_sel} select! loops scanned for `biased;`", nontrivial=False, ordinal=False)
+
     # ---------------- K5 unsafe impl Send/Sync ---------------------------------------------------------
     n_imp = 0
     for it in prog.items:
